@@ -312,6 +312,30 @@ def mask():
     return _MASK
 
 
+_NOTMASK = None
+
+
+def unmask(iv):
+    """iv minus the unspecified code points (iv must be normalised)"""
+    global _NOTMASK
+    if _NOTMASK is None:
+        _NOTMASK = compl(mask())
+    a, b = iv, _NOTMASK
+    out = []
+    i = j = 0
+    na, nb = len(a), len(b)
+    while i < na and j < nb:
+        lo = a[i][0] if a[i][0] > b[j][0] else b[j][0]
+        hi = a[i][1] if a[i][1] < b[j][1] else b[j][1]
+        if lo <= hi:
+            out.append((lo, hi))
+        if a[i][1] < b[j][1]:
+            i += 1
+        else:
+            j += 1
+    return tuple(out)
+
+
 def uses_shorthand(text):
     return re.search(r'(?<!\\)(?:\\\\)*\\[dswDSW]', text) is not None
 
